@@ -10,7 +10,7 @@ package limitlistener
 // kernel's accept queue (dial succeeds, no answer) until a permit is free.
 //
 // The counter lives in a thin listener put between http.Server and the LimitListener: +1 after
-// LimitListener.Accept has returned, -1 before Close is forwarded to the limitListenerConn, so it
+// LimitListener.Accept has returned, -1 before Close is forwarded to the connection Accept returned, so it
 // never exceeds the number of accepted connections that are still open.
 
 import (
@@ -141,6 +141,7 @@ func TestVerifC17HTTPServe(t *testing.T) {
 			stableCap: cap0, lastIssued: cap0, maxCaps: cap0}
 		r.cond = sync.NewCond(&r.mu)
 		r.ll = NewLimitListener(inner, uint32(cap0))
+		r.sem = vfC17SemOf(r.ll)
 		srv := &http.Server{Handler: http.HandlerFunc(func(w http.ResponseWriter, req *http.Request) {
 			io.WriteString(w, "ok")
 		})}
@@ -370,8 +371,11 @@ func TestVerifC17HTTPServe(t *testing.T) {
 		if !qok {
 			rt.Fatalf("VF-INCONCLUSIVE %s\nscript: %s\nhistory: %s", qwhy, script, hist)
 		}
-		if vfC17ProbeOK {
-			free := vfC17Free(r.ll.sem, finalCap+3)
+		if r.sem == nil {
+			vf.Class("probe-unavailable:listener-semaphore (http: changes via SetMaxConnection only, no permit count)")
+		}
+		if vfC17ProbeOK && r.sem != nil {
+			free := vfC17Free(r.sem, finalCap+3)
 			if free < finalCap {
 				if vf.Violation(rt, "capacity-lost-after-all-connections-closed", "everything closed and every change done: %d free permits, cap %d (released capacity is not usable again)\n[net/http over loopback TCP] script: %s\nhistory: %s", free, finalCap, script, hist) {
 					return
